@@ -311,3 +311,166 @@ def small_trees(max_nodes: int, leaf_factory):
     for n in range(1, max_nodes + 1):
         out.extend(shapes(n))
     return out
+
+
+# ----------------------------------------------------------------------------------------------
+# pair generators (prefix / suffix / variants / near misses)
+
+def children_slots(t):
+    """(start index of the children inside the S-expression, are-they-pairs?)"""
+    if isinstance(t, Atom):
+        return None
+    tag = t[0]
+    if tag in ('T', 'l'):
+        return 1, False
+    if tag in ('D', 'O'):
+        return 1, True
+    if tag == 'DD':
+        return 2, True
+    if tag in ('Q', 'NT', 'SS'):
+        return 2, False
+    if tag == 'U':
+        return 4, False
+    return None
+
+
+def map_children(t, f):
+    slots = children_slots(t)
+    if slots is None:
+        return t
+    start, pairs = slots
+    head = list(t[:start])
+    if pairs:
+        return head + [[k, f(v)] for k, v in t[start:]]
+    return head + [f(c) for c in t[start:]]
+
+
+def substitute_leaves(gen, t, p=0.4, depth=2):
+    """a suffix of `t`: some leaves replaced by sub-trees"""
+    if isinstance(t, Atom):
+        return t
+    if t[0] == 'L':
+        if gen.rng.random() < p:
+            return gen.tree(depth=depth, width=3, leaf_p=0.0)
+        return t
+    return map_children(t, lambda c: substitute_leaves(gen, c, p, depth))
+
+
+def relabel_leaves(gen, t):
+    if isinstance(t, Atom):
+        return t
+    if t[0] == 'L':
+        return gen.leaf(0)
+    return map_children(t, lambda c: relabel_leaves(gen, c))
+
+
+def vary_dicts(gen, t, p_kind=0.5, p_order=0.7, p_maxlen=0.5):
+    """same structure up to dict kind / key order / default factory / deque maxlen"""
+    rng = gen.rng
+    if isinstance(t, Atom) or t[0] == 'L':
+        return t
+    t = map_children(t, lambda c: vary_dicts(gen, c, p_kind, p_order, p_maxlen))
+    tag = t[0]
+    if tag in ('D', 'O', 'DD'):
+        items = list(t[1:] if tag != 'DD' else t[2:])
+        if rng.random() < p_order:
+            rng.shuffle(items)
+        new = tag
+        if rng.random() < p_kind:
+            new = rng.choice(['D', 'O', 'DD'])
+        if new == 'DD':
+            f = t[1] if tag == 'DD' and rng.random() < 0.5 else rng.choice([A('N'), 0, 1, 2, 3])
+            return [A('DD'), f, *items]
+        return [A(new), *items]
+    if tag == 'Q' and rng.random() < p_maxlen:
+        n = len(t) - 2
+        return [A('Q'), rng.choice([A('N'), n, n + 2]), *t[2:]]
+    return t
+
+
+def all_nodes(t, path=()):
+    out = [(path, t)]
+    slots = children_slots(t)
+    if slots:
+        start, pairs = slots
+        for i, c in enumerate(t[start:]):
+            out.extend(all_nodes(c[1] if pairs else c, path + (start + i,)))
+    return out
+
+
+def replace_at(t, path, new):
+    if not path:
+        return new
+    t = list(t)
+    i = path[0]
+    slots = children_slots(t)
+    if slots[1]:
+        t[i] = [t[i][0], replace_at(t[i][1], path[1:], new)]
+    else:
+        t[i] = replace_at(t[i], path[1:], new)
+    return t
+
+
+def near_miss(gen, t):
+    """one local edit that changes the structure at one node"""
+    rng = gen.rng
+    nodes = [(p, n) for p, n in all_nodes(t)]
+    for _ in range(20):
+        path, n = rng.choice(nodes)
+        if isinstance(n, Atom):      # None -> leaf or empty tuple
+            return replace_at(t, path, rng.choice([gen.leaf(0), [A('T')]])), 'none-node'
+        tag = n[0]
+        if tag == 'L':
+            continue
+        edits = []
+        if tag in ('T', 'l'):
+            edits += ['kind', 'arity+', 'arity-']
+        if tag in ('D', 'O', 'DD'):
+            edits += ['key', 'arity+', 'arity-', 'to-list']
+        if tag == 'Q':
+            edits += ['arity+', 'arity-', 'to-list']
+        if tag == 'NT':
+            edits += ['class', 'to-tuple']
+        if tag == 'SS':
+            edits += ['to-tuple']
+        if tag == 'U':
+            edits += ['md', 'arity+', 'arity-', 'ucls']
+        e = rng.choice(edits)
+        n = list(n)
+        slots = children_slots(n)
+        start = slots[0]
+        if e == 'kind':
+            n[0] = A('l' if tag == 'T' else 'T')
+        elif e == 'arity+':
+            if slots[1]:
+                n.append([[A('s'), 'zzz-extra'], gen.leaf(0)])
+            else:
+                n.append(gen.leaf(0))
+                if tag == 'Q' and n[1] != 'N' and int(n[1]) < len(n) - 2:
+                    n[1] = len(n) - 2
+        elif e == 'arity-':
+            if len(n) <= start:
+                continue
+            n.pop()
+        elif e == 'key':
+            if len(n) <= start:
+                continue
+            i = rng.randrange(start, len(n))
+            n[i] = [[A('s'), 'zzz-renamed'], n[i][1]]
+        elif e == 'to-list':
+            kids = [c[1] if slots[1] else c for c in n[start:]]
+            n = [A('l'), *kids]
+        elif e == 'to-tuple':
+            n = [A('T'), *n[2:]]
+        elif e == 'class':
+            c = int(n[1])
+            alt = {0: 4, 4: 0}.get(c)
+            if alt is None:
+                continue
+            n[1] = alt
+        elif e == 'md':
+            n[2] = [A('s'), 'zzz-md']
+        elif e == 'ucls':
+            n[1] = (int(n[1]) + 1) % 8
+        return replace_at(t, path, n), e
+    return [A('T'), t], 'wrapped'
